@@ -296,6 +296,13 @@ pub fn run(kv: &Args) -> i32 {
                     let r = rand_unit(&mut rng, key);
                     prop_mul(imp, key, m, &r, k, &mut out, i < *ncoq);
                 }
+                // plaintexts at the carry boundaries of g^m = 1 + m*N (their ciphertexts are the operands of add / mul)
+                for (i, m0) in carry_plaintexts(key).iter().enumerate() {
+                    let r = rand_unit(&mut rng, key);
+                    let m2 = if i % 2 == 0 { &key.n - bu(7) } else { bu(5) };
+                    prop_add(imp, key, m0, &r, &m2, &(&key.n - bu(1)), &mut out, false);
+                    prop_mul(imp, key, m0, &r, &bu(3), &mut out, false);
+                }
                 // scalars with limb structure (zero interior limbs, powers of two at the limb boundaries, top bit set)
                 let ks = limb_scalars(&mut rng, key);
                 let m = rng.gen_biguint_below(&key.n);
